@@ -108,6 +108,20 @@ def check_string(ctx, L, s, allow_empty, acceptable):
     if reinsert(unf, seqs) != s:
         ctx.violation('reinsertion-not-input', dict(det, reinserted=reinsert(unf, seqs)), mech='csparse-reinsert')
         return
+    # reading the accessors (also for removal points that hold no sequence) must not change the object
+    for k in (0, len(unf) // 2, len(unf), len(unf) + 3, -1):
+        try:
+            p.sequences[k]
+        except KeyError:
+            pass
+        except Exception as e:
+            ctx.violation('sequences-lookup-raised', dict(det, key=k, error=repr(e)), mech='csparse-lookup')
+            return
+        p.sequences.get(k)
+    seqs2 = {k: [(v.sequence, v.terminator) for v in lst] for k, lst in p.sequences.items() if lst}
+    if p.formatted_str != s or str(p) != s or p.unformatted_str != unf or seqs2 != seqs:
+        ctx.violation('changed-by-reading', dict(det, formatted_str=p.formatted_str), mech='csparse-changed-by-reading')
+        return
     if any(k < 0 or k > len(unf) for k in seqs) or list(seqs) != sorted(seqs):
         ctx.violation('sequence-index-out-of-range', det, mech='csparse-index')
         return
@@ -149,6 +163,12 @@ def check_helper(ctx, L, rng):
     ctx.sig('helper:' + name)
     ctx.nontriv(('helper', name, tuple(args)))
     det = {'helper': name, 'args': args}
+    if rng.random() < 0.3:
+        # an earlier call with an equal-valued argument of another numeric type must not influence this one
+        try:
+            fn(*[rng.choice([float(a), bool(a) if a in (0, 1) else float(a)]) for a in args])
+        except Exception:
+            pass
     try:
         out = fn(*args)
     except Exception as e:
